@@ -162,7 +162,10 @@ func (unpacker *RtpUnpackerAac) TryUnpackOne(list *RtpPacketList) (unpackedFlag 
 		outPkt.PayloadType = unpacker.payloadType
 		outPkt.Timestamp = rtpTimestamp2Ms(p.Packet.Header.Timestamp, unpacker.clockRate)
 		// TODO chef: 这里1024的含义
-		outPkt.Timestamp += int64(uint32(i * (1024 * 1000) / unpacker.clockRate))
+		if unpacker.clockRate > 0 {
+			// a clock rate of 0 comes from the peer's SDP (a=rtpmap:97 MPEG4-GENERIC/0): no spacing can be derived
+			outPkt.Timestamp += int64(uint32(i * (1024 * 1000) / unpacker.clockRate))
+		}
 		outPkt.Payload = b[aus[i].pos : aus[i].pos+aus[i].size]
 		unpacker.onAvPacket(outPkt)
 	}
